@@ -214,6 +214,11 @@ def param_roles(raw):
             while t["t"] == "ref":
                 t = raw["types"][t["i"]]
             return t
+        # a binary method: (self, X) where X is another value of the receiver's type or an `impl AsView..` operand -> `other`
+        if len(binds) == 2 and binds[0][0]["name"] == "self" and binds[1][0]["name"] != "other":
+            t0, t1 = peeled(binds[0][1]), peeled(binds[1][1])
+            if t1["s"] == t0["s"] or ("AsView" in t1["s"] and t1["s"].lstrip().startswith("impl ")):
+                out.append((b["path"], binds[1][0]["id"], binds[1][0]["name"], "other"))
         for role, want in (("prefix", lambda t: t["t"] == "param" and t["s"] in keyp and t["s"] in ("P",)),
                            ("value", lambda t: t["t"] == "param" and t["s"] == "T" and "T" not in keyp)):
             m = [pt for pt, ty in binds if want(peeled(ty))]
